@@ -174,7 +174,12 @@ ASSIGN_MODEL(solreal, SolBase<double>)
 ASSIGN_MODEL(solrat, SolBase<Rational>)
 ASSIGN_MODEL(rangetypes, DataArray<SP::RangeType>)
 ASSIGN_MODEL(ratlu, SLUFactorRational)
-ASSIGN_MODEL(intarr, DataArray<int>)
+// DataArray<int> is also used inside SPxSolverBase (isInfeasible, ...): only assignments touching _rationalLUSolverBind count
+DataArray<int>* m_as_intarr(DataArray<int>* self, const DataArray<int>* rhs)
+{
+   if((const void*)self == g_compA[K_ratLUBind] || (const void*)rhs == g_compB[K_ratLUBind]) rec_assign(self, rhs);
+   return self;
+}
 // std::shared_ptr<Tolerances>::operator=(const shared_ptr&): afterwards the target refers to the source's pointee
 std::shared_ptr<Tolerances>* m_tol_assign(std::shared_ptr<Tolerances>* self, const std::shared_ptr<Tolerances>* rhs)
 {
@@ -319,18 +324,22 @@ static void check_assign(int groups)
 #endif
    const QLP* bq = b->_rationalLP;
    const RLP* br = b->_realLP;
+   const SPxScaler<double>* bsc = b->_scaler; const SPxSimplifier<double>* bsi = b->_simplifier; const SPxStarter<double>* bst = b->_starter;
    SP& r = (*a = *b);
    vp_assert(&r == a, 1);
 
    if(groups & G_CORE)
    {
-      // (b) selector pointers: the same member as in the source, but OF THE TARGET
-      vp_assert(scaler_idx(a, a->_scaler) == scaler_idx(b, b->_scaler) && scaler_idx(b, b->_scaler) >= 0, 10);
-      vp_assert(simplifier_idx(a, a->_simplifier) == simplifier_idx(b, b->_simplifier) && simplifier_idx(b, b->_simplifier) >= 0, 11);
-      vp_assert(starter_idx(a, a->_starter) == starter_idx(b, b->_starter) && starter_idx(b, b->_starter) >= 0, 12);
+      // (b) selector pointers: null or a member OF THE TARGET, namely the one the (copied) parameter value selects.
+      //     (After a solve the source's _simplifier/_scaler may be temporarily null, see _disableSimplifierAndScaler; the
+      //     copy is re-derived from the settings.)
       vp_assert(a->intParam(SP::SCALER) == p.scal && a->intParam(SP::SIMPLIFIER) == p.simp && a->intParam(SP::STARTER) == p.start, 13);
+      vp_assert(a->_scaler == scaler_of(a, p.scal), 10);
+      vp_assert(a->_simplifier == simplifier_of(a, p.simp), 11);
+      vp_assert(a->_starter == starter_of(a, p.start), 12);
+      vp_assert(scaler_idx(b, a->_scaler) <= 0 && simplifier_idx(b, a->_simplifier) <= 0 && starter_idx(b, a->_starter) <= 0, 16);
       // the source is untouched
-      vp_assert(b->_scaler == scaler_of(b, p.scal) && b->_simplifier == simplifier_of(b, p.simp) && b->_starter == starter_of(b, p.start), 14);
+      vp_assert(b->_scaler == bsc && b->_simplifier == bsi && b->_starter == bst, 14);
       vp_assert(b->_realLP == br && b->_rationalLP == bq, 15);
       // (c) real LP: inside the solver iff the source's is; otherwise a fresh object
       vp_assert((a->_realLP == &a->_solver) == p.loaded, 20);
@@ -404,10 +413,11 @@ extern "C" void h_assign_self()
    const QLP* bq = b->_rationalLP;
    const RLP* br = b->_realLP;
    const Tolerances* bt = tol_ptr(b);
+   const SPxScaler<double>* bsc = b->_scaler; const SPxSimplifier<double>* bsi = b->_simplifier; const SPxStarter<double>* bst = b->_starter;
    SP& alias = *b;
    SP& r = (*b = alias);
    vp_assert(&r == b, 1);
-   vp_assert(b->_scaler == scaler_of(b, p.scal) && b->_simplifier == simplifier_of(b, p.simp) && b->_starter == starter_of(b, p.start), 2);
+   vp_assert(b->_scaler == bsc && b->_simplifier == bsi && b->_starter == bst, 2);
    vp_assert(b->_realLP == br && b->_rationalLP == bq && tol_ptr(b) == bt, 3);
    vp_assert(b->_hasBasis == p.hasBasis && b->_hasSolReal == p.hasSolReal && b->_hasSolRational == p.hasSolRat && b->_isRealLPLoaded == p.loaded, 4);
    vp_assert((int)b->_status == p.status && b->_lastSolveMode == p.lastSolveMode, 5);
